@@ -628,6 +628,26 @@ fn templates() -> Vec<Json> {
         let others: Vec<&str> = others;
         t.push(tpl("tokenisation", name, tp, flat, expected, &others, false));
     }
+    // chains of the iterator operators with the value their grouping means: the operators apply one
+    // after the other, each to what the one before it made - a predicate only sees elements, a chain
+    // run again works on its new operand
+    let ip = "ns := [1, 2, 5]; ws := [\"ab\", \"c\", \"abc\"]; n := mut 0; ints := (a: [int|float]) -> [int] { return a~ ? int $]; }; \
+              evens := (a: [int]) -> int { return a~ ? (x: int) -> bool { return x % 2 == 0; } $+ * 2; }; ";
+    for (name, flat, expected, value) in [
+        ("filter partial predicate collect", "ns~ ? (x: int) -> bool { return 10 / x > 2; } $]", "((ns~) ? (x: int) -> bool { return 10 / x > 2; }) $]", "[1, 2]"),
+        ("filter partial predicate sum", "ns~ ? (x: int) -> bool { return 10 % x == 0; } $+ + 1", "(((ns~) ? (x: int) -> bool { return 10 % x == 0; }) $+) + 1", "9"),
+        ("filter indexing predicate", "ws~ ? (s: string) -> bool { return s[0] == \"a\"; } $]", "((ws~) ? (s: string) -> bool { return s[0] == \"a\"; }) $]", "[\"ab\", \"abc\"]"),
+        ("map then partial filter", "ns~ @ (x: int) -> int { return x + 1; } ? (x: int) -> bool { return 12 / x > 2; } $]", "(((ns~) @ (x: int) -> int { return x + 1; }) ? (x: int) -> bool { return 12 / x > 2; }) $]", "[2, 3]"),
+        ("filter counts its calls", "r := ns~ ? (x: int) -> bool { n += 1; return x > 1; } $]; (r, *n)", "r := (((ns~) ? (x: int) -> bool { n += 1; return x > 1; }) $]); (r, *n)", "([2, 5], 3)"),
+        ("type filter run again", "(ints([1, 2.5]), ints([3.5, 4]), ints([7, 8]))", "(ints([1, 2.5]), ints([3.5, 4]), ints([7, 8]))", "([1], [4], [7, 8])"),
+        ("filter run again", "(evens([1, 2]), evens([4, 6]), evens([3]))", "(evens([1, 2]), evens([4, 6]), evens([3]))", "(4, 20, 0)"),
+        ("type filter in a loop", "t := mut 0; for row in [[1, 2.5], [3, 4.5]]~ { t += row~ ? int $+ * 2; }; *t", "t := mut 0; for row in [[1, 2.5], [3, 4.5]]~ { t += (((row~) ? int) $+) * 2; }; *t", "8"),
+        ("type filter in a while", "t := mut 0; k := mut 0; while *k < 3 { t += [*k, 2.5, *k * 10]~ ? int $+; k += 1; }; *t", "t := mut 0; k := mut 0; while *k < 3 { t += ((([*k, 2.5, *k * 10])~) ? int) $+; k += 1; }; *t", "33"),
+    ] {
+        let mut case = tpl("iterator-chain-value", name, ip, flat, expected, &[], true);
+        case["value"] = json!(value);
+        t.push(case);
+    }
     t
 }
 
